@@ -480,7 +480,7 @@ func runC12(c *run.Ctx) {
 			excerpt := clip(res.out, 8000)
 			switch {
 			case res.exit == 3 && c12AllBlockedOnMutex(res.out):
-				c.Violation("c12-deadlock", map[string]interface{}{"child": res.k, "diag": "all workload goroutines blocked in sync.(*Mutex).Lock under ggql frames in two dumps 5 s apart", "dump": excerpt})
+				c.Violation("c12-deadlock", map[string]interface{}{"child": res.k, "diag": "all workload goroutines blocked acquiring a sync.Mutex / sync.RWMutex under ggql frames in two dumps 5 s apart", "dump": excerpt})
 			case strings.Contains(res.out, "fatal error:"):
 				c.Violation("c12-fatal", map[string]interface{}{"child": res.k, "diag": firstLineWith(res.out, "fatal error:"), "output": excerpt})
 			default:
@@ -555,7 +555,7 @@ func firstLineWith(s, sub string) string {
 	return ""
 }
 
-// c12AllBlockedOnMutex: both stall dumps must show the goroutines that run ggql frames parked in Mutex.Lock.
+// c12AllBlockedOnMutex: both stall dumps must show the goroutines that run ggql frames parked in a Mutex / RWMutex acquisition.
 func c12AllBlockedOnMutex(out string) bool {
 	dumps := strings.Split(out, "=== STALL DUMP")
 	if len(dumps) < 3 {
@@ -569,7 +569,8 @@ func c12AllBlockedOnMutex(out string) bool {
 				continue
 			}
 			workers++
-			if strings.Contains(g, "sync.(*Mutex).Lock") || strings.Contains(g, "sync.runtime_SemacquireMutex") {
+			if strings.Contains(g, "sync.(*Mutex).Lock") || strings.Contains(g, "sync.(*RWMutex).Lock") || strings.Contains(g, "sync.(*RWMutex).RLock") ||
+				strings.Contains(g, "sync.runtime_Semacquire") {
 				blocked++
 			}
 		}
